@@ -210,6 +210,12 @@ func (s *V2Session) buildAndSend(ctx context.Context, c ipmi.Command) error {
 		if err := types.InnermostEquals(ipmi.LayerTypeMessage); err != nil {
 			return err
 		}
+		// a duplicated, delayed or unsolicited reply to another command must
+		// not be taken for the response to this one
+		if operation := c.Operation(); s.messageLayer.Function != operation.Function+1 ||
+			s.messageLayer.Command != operation.Command {
+			return errUnexpectedResponse
+		}
 		code := s.messageLayer.CompletionCode
 		// must increment here, otherwise we'll miss temporary codes at the
 		// higher levels
